@@ -37,8 +37,8 @@ def _funcs():
     return [m.VbsReader.__next__, m.IpmReader.__next__, m.Unblock1014.read, M().cardutil.CardutilError.__init__]
 
 
-def _good(i, enc):
-    msg, elems = build_message([2] if i % 2 == 0 else [3, 63], tag='_g%d' % i, maxvar=300)
+def _good(i, enc, maxvar=300):
+    msg, elems = build_message([2] if i % 2 == 0 else [3, 63], tag='_g%d' % i, maxvar=maxvar)
     return msg, elems
 
 
@@ -70,7 +70,7 @@ def fault(nmax, kinds, enc, blocked):
                     raw_k = struct.pack('>I', len(body)) + body
                 goods.append(None)
             else:
-                msg, elems = _good(i, enc)
+                msg, elems = _good(i, enc, 800 if 'truncated' in kinds else 300)
                 body = iso.dumps(dict(msg), encoding=enc)
                 w.write(body)
                 goods.append((msg, elems, body))
@@ -82,21 +82,33 @@ def fault(nmax, kinds, enc, blocked):
             for i in range(1, k):
                 start = start + 4 + rlen(goods[i - 1][2])
             blen = rlen(goods[k - 1][2])
-            cutp = sym_int('cut', 0)
-            assume(cutp < blen)
-            sym['cut'] = cutp
-            payload_cut = start + 4 + cutp
             if blocked:
-                # payload offset -> file offset
-                t = (payload_cut // 1012) * 1014 + payload_cut % 1012
+                # the file is cut at any byte t between the first and the last body byte of record k -- including the two trailer
+                # bytes of a block the record spans
+                p0 = start + 4
+                p1 = start + 4 + blen
+                f0 = (p0 // 1012) * 1014 + p0 % 1012
+                f1 = (p1 // 1012) * 1014 + p1 % 1012
+                t = sym_int('t', 0)
+                assume(t >= f0)
+                assume(t < f1)
+                avail = (t // 1014) * 1012 + core.s_min(t % 1014, 1012)
+                cutp = avail - p0
+                assume(cutp < blen)            # the record must really be incomplete
+                assume(cutp >= 0)
+                sym['t'] = t
             else:
-                t = payload_cut
+                cutp = sym_int('cut', 0)
+                assume(cutp < blen)
+                t = start + 4 + cutp
+            sym['cut'] = cutp
             data = sl(data, 0, t)
             raw_k = cat('b', mk('b', [U32(blen, '>I')]), sl(goods[k - 1][2], 0, cutp))
 
         def rp():
             return {'kind': 'fault', 'args': {'n': n, 'k': k, 'fault': kind, 'enc': enc, 'blocked': blocked,
                                               'lens': [ev(rlen(g[2])) - 22 if g else None for g in goods],
+                                              'goods': [msg_witness(g[0], g[1], ev) if g else None for g in goods], 't': ev(sym.get('t')) if 't' in sym else None,
                                               'L': ev(sym.get('L')) if 'L' in sym else None, 'cut': ev(sym.get('cut')) if 'cut' in sym else None}}
         rd = m.IpmReader(RopeFile(data), encoding=enc, blocked=blocked)
         got = []
